@@ -120,6 +120,8 @@ pub struct Out {
     pub remainders: Vec<usize>,
     /// run with heapless / std sinks: bytes found in the sink after each call
     pub sink_bytes: Vec<u8>,
+    /// length of `sink_bytes` after each `run` call (per call attribution)
+    pub sink_marks: Vec<usize>,
     /// process: what each `process` call returned (None = still pending when
     /// the simulation stopped, Some(Ok) must never happen)
     pub results: Vec<Option<Result<(), Tok>>>,
@@ -437,6 +439,7 @@ struct RunSide {
     not_suffix: Cell<bool>,
     remainders: std::cell::RefCell<Vec<usize>>,
     sink_bytes: std::cell::RefCell<Vec<u8>>,
+    sink_marks: std::cell::RefCell<Vec<usize>>,
 }
 
 pub fn drive<I: SimIface, const N: usize>(ex: &Exec) -> Out {
@@ -463,6 +466,7 @@ pub fn drive<I: SimIface, const N: usize>(ex: &Exec) -> Out {
                         let mut wr = heapless::Vec::<u8, N>::new();
                         let f = run_calls(&mut iface, &w, &ex.stream, splits, &mut wr, &side, |s, o| {
                             o.sink_bytes.borrow_mut().extend_from_slice(s);
+                            o.sink_marks.borrow_mut().push(o.sink_bytes.borrow().len());
                             s.clear();
                         });
                         block_on(f, &w, &idle, &mut polls, budget, None)
@@ -471,6 +475,7 @@ pub fn drive<I: SimIface, const N: usize>(ex: &Exec) -> Out {
                         let mut wr = heapless::Vec::<u8, 4096>::new();
                         let f = run_calls(&mut iface, &w, &ex.stream, splits, &mut wr, &side, |s, o| {
                             o.sink_bytes.borrow_mut().extend_from_slice(s);
+                            o.sink_marks.borrow_mut().push(o.sink_bytes.borrow().len());
                             s.clear();
                         });
                         block_on(f, &w, &idle, &mut polls, budget, None)
@@ -485,6 +490,7 @@ pub fn drive<I: SimIface, const N: usize>(ex: &Exec) -> Out {
                         let mut wr: Vec<u8> = Vec::new();
                         let f = run_calls(&mut iface, &w, &ex.stream, splits, &mut wr, &side, |s, o| {
                             o.sink_bytes.borrow_mut().extend_from_slice(s);
+                            o.sink_marks.borrow_mut().push(o.sink_bytes.borrow().len());
                             s.clear();
                         });
                         block_on(f, &w, &idle, &mut polls, budget, None)
@@ -504,6 +510,7 @@ pub fn drive<I: SimIface, const N: usize>(ex: &Exec) -> Out {
                 out.not_suffix = side.not_suffix.get();
                 out.remainders = side.remainders.take();
                 out.sink_bytes = side.sink_bytes.take();
+                out.sink_marks = side.sink_marks.take();
             }
             Mode::Process => {
                 let mut tr = SimTransport {
